@@ -331,6 +331,10 @@ class Gateway(Engine):
             )
 
             await tmp_transport.get_extra_info(SZ_READER_TASK)
+
+            # the last message is handed on with call_soon (twice over): let it arrive,
+            for _ in range(2):  # so that the restored state is complete on return
+                await asyncio.sleep(0)
         finally:  # always resume, even if the restore failed or was cancelled
             _LOGGER.warning("GATEWAY: Restored, resuming")
             self._resume()
